@@ -9,6 +9,7 @@ Usage (also importable):
     build.py all
 """
 import concurrent.futures as cf
+import threading
 import glob
 import hashlib
 import os
@@ -163,7 +164,7 @@ def includes():
 
 def _compile_one(args):
     cmd, out = args
-    tmp = out + ".tmp%d" % os.getpid()
+    tmp = out + ".tmp%d.%d" % (os.getpid(), threading.get_ident())
     rc, o = sh(cmd + ["-o", tmp])
     if rc != 0:
         return rc, " ".join(cmd) + "\n" + o
@@ -228,7 +229,7 @@ def build_flavour(name, log=sys.stderr):
         _touch(ar)
     else:
         os.makedirs(os.path.dirname(ar), exist_ok=True)
-        tmp = ar + ".tmp%d" % os.getpid()
+        tmp = ar + ".tmp%d.%d" % (os.getpid(), threading.get_ident())
         rc, o = sh(["ar", "rcs", tmp] + objs)
         if rc != 0:
             log.write(o)
@@ -302,7 +303,7 @@ def build_target(t, log=sys.stderr):
         _touch(out)
         return out
     t0 = time.time()
-    tmp = out + ".tmp%d" % os.getpid()
+    tmp = out + ".tmp%d.%d" % (os.getpid(), threading.get_ident())
     cmd = flags + [src] + scheds + extra + [ar] + ld + libs + ["-o", tmp]
     rc, o = sh(cmd)
     if rc != 0:
